@@ -38,6 +38,7 @@ type rollWorld struct {
 	pk     *sim.Kind
 	pns    string
 	ck     *sim.Kind
+	ck2    *sim.Kind // optional second rolling child kind with the SAME names (desired while spec.template.extra is true)
 	cns    string
 	key    string
 	puid   string
@@ -58,6 +59,16 @@ func rollHook(ck *sim.Kind, cns string, genSel bool) world.HookFunc {
 				kit.Labels(o, "app", "x")
 			}
 			ch = append(ch, o)
+		}
+		if extra, _ := kit.Get(req, "parent", "spec", "template", "extra").(bool); extra {
+			for i := int64(0); i < n; i++ {
+				o := kit.Obj(kit.Gadget, cns, fmt.Sprintf("w%d", i))
+				kit.Field(o, ver, "spec", "tpl")
+				if !genSel {
+					kit.Labels(o, "app", "x")
+				}
+				ch = append(ch, o)
+			}
 		}
 		if ch == nil {
 			ch = kit.L{}
@@ -103,15 +114,56 @@ func newRollWorld(n int, cluster bool, child, method string, checks, genSel bool
 
 // fair: every child becomes healthy and reports having observed its own generation.
 func (x *rollWorld) fair() {
-	for _, o := range x.Sim.All(x.ck) {
-		gen, _ := kit.Get(o, "metadata", "generation").(int64)
-		x.Sim.Edit(x.ck, kit.NS(o), kit.Name(o), func(c map[string]interface{}) {
-			c["status"] = map[string]interface{}{
-				"observedGeneration": gen,
-				"conditions":         []interface{}{map[string]interface{}{"type": "Ready", "status": "True"}},
-			}
-		})
+	for _, k := range []*sim.Kind{x.ck, x.ck2} {
+		if k == nil {
+			continue
+		}
+		for _, o := range x.Sim.All(k) {
+			gen, _ := kit.Get(o, "metadata", "generation").(int64)
+			x.Sim.Edit(k, kit.NS(o), kit.Name(o), func(c map[string]interface{}) {
+				c["status"] = map[string]interface{}{
+					"observedGeneration": gen,
+					"conditions":         []interface{}{map[string]interface{}{"type": "Ready", "status": "True"}},
+				}
+			})
+		}
 	}
+}
+
+// newRollWorld2: widgets and gadgets, both rolling with the same method, same child names.
+func newRollWorld2(n int, method string, genSel bool) *rollWorld {
+	x := &rollWorld{pk: kit.Thing, pns: "n1", ck: kit.Widget, ck2: kit.Gadget, cns: "n1"}
+	o := ccOpt{parent: x.pk, children: []*sim.Kind{x.ck, x.ck2}, generateSel: genSel,
+		methods: map[string]v1alpha1.ChildUpdateMethod{x.ck.Resource: v1alpha1.ChildUpdateMethod(method), x.ck2.Resource: v1alpha1.ChildUpdateMethod(method)}}
+	x.opt = o
+	x.cworld = newCWorld(o, false)
+	p := kit.Obj(x.pk, x.pns, "p")
+	kit.Field(p, int64(n), "spec", "replicas")
+	kit.Field(p, "v1", "spec", "template", "ver")
+	kit.Field(p, true, "spec", "template", "extra")
+	kit.Field(p, "c1", "spec", "common")
+	if !genSel {
+		kit.Field(p, kit.M{"matchLabels": kit.M{"app": "x"}}, "spec", "selector")
+		kit.Field(p, kit.M{"app": "x"}, "spec", "template", "metadata", "labels")
+	}
+	x.puid = x.Sim.Seed(p)
+	x.key = parentKey(x.pns, "p")
+	x.Hooks.Handle("/cc/sync", rollHook(x.ck, x.cns, genSel))
+	x.DeliverAll()
+	return x
+}
+
+func (x *rollWorld) allAt2(ver string, n int) bool {
+	ch := x.Sim.All(x.ck2)
+	if len(ch) != n {
+		return false
+	}
+	for _, c := range ch {
+		if kit.Str(c, "spec", "tpl") != ver || kit.Get(c, "metadata", "deletionTimestamp") != nil {
+			return false
+		}
+	}
+	return true
 }
 
 func (x *rollWorld) round() (error, interface{}, string) {
@@ -161,6 +213,13 @@ func (x *rollWorld) edit(change, ver string) {
 			kit.Field(o, n-1, "spec", "replicas")
 		case "scaleup":
 			kit.Field(o, n+1, "spec", "replicas")
+		case "dropextra":
+			kit.Field(o, false, "spec", "template", "extra")
+		case "tpl+dropextra":
+			kit.Field(o, ver, "spec", "template", "ver")
+			kit.Field(o, false, "spec", "template", "extra")
+		case "addextra":
+			kit.Field(o, true, "spec", "template", "extra")
 		}
 	})
 	x.DeliverAll()
@@ -268,6 +327,95 @@ func c08Run(c c08Case) []mc.Finding {
 	return f
 }
 
+// c08Run2: two rolling child kinds whose children share names; one kind is dropped (or brought back) by a
+// revisioned field while a template rollout is under way.
+type c08Case2 struct {
+	GenSel   bool
+	N        int
+	Method   string
+	InjectAt int
+	Change1  string // "tpl", "tpl+dropextra", "dropextra"
+	Change2  string // "tpl", "dropextra", "tpl+dropextra", "addextra", "scaledown"
+}
+
+func c08Run2(c c08Case2) []mc.Finding {
+	var f []mc.Finding
+	bad := func(key, format string, a ...interface{}) {
+		f = append(f, mc.Finding{Key: "C08:two-kinds:" + key, Msg: fmt.Sprintf("%+v: ", c) + fmt.Sprintf(format, a...)})
+	}
+	x := newRollWorld2(c.N, c.Method, c.GenSel)
+	for i := 0; i < 2*c.N+3; i++ {
+		if err, p, stack := x.round(); err != nil || p != nil {
+			bad("setup", "initial sync %d: err=%v panic=%v %s", i, err, p, stack)
+			return f
+		}
+	}
+	if !x.allAt("v1", c.N) || !x.allAt2("v1", c.N) {
+		bad("setup", "children not created at v1")
+		return f
+	}
+	target, extra := "v1", true
+	apply := func(change, ver string) {
+		if strings.Contains(change, "tpl") {
+			target = ver
+		}
+		if strings.Contains(change, "dropextra") {
+			extra = false
+		}
+		if change == "addextra" {
+			extra = true
+		}
+		x.edit(change, ver)
+	}
+	apply(c.Change1, "v2")
+	bound := 2 * (2*c.N + 6)
+	if c.Method == "RollingRecreate" {
+		bound = 2 * (3*c.N + 6)
+	}
+	budget := bound
+	done := -1
+	for i := 0; i < 2*bound+2 && budget >= 0; i++ {
+		if i == c.InjectAt {
+			apply(c.Change2, "v3")
+			budget = bound
+		}
+		err, p, stack := x.round()
+		if p != nil {
+			bad("panic", "panic in rollout sync %d: %v\n%s", i, p, stack)
+			return f
+		}
+		if err != nil {
+			bad("sync-error", "rollout sync %d: %v", i, err)
+			return f
+		}
+		st, _, _ := x.updatedCondition()
+		n2 := 0
+		if extra {
+			n2 = x.replicas()
+		}
+		complete := x.allAt(target, x.replicas()) && x.allAt2(target, n2) && st == "True" && len(x.revisions()) == 1
+		if !complete {
+			budget--
+		}
+		if complete && (c.InjectAt < 0 || i >= c.InjectAt) {
+			done = i + 1
+			break
+		}
+	}
+	if done < 0 {
+		st, reason, msg := x.updatedCondition()
+		n2 := 0
+		if extra {
+			n2 = x.replicas()
+		}
+		bad("not-completed", "rollout to %s (second kind desired: %v) not complete within the bound of %d syncs: Updated=%s/%s %q, revisions=%d, widgets at target=%v, gadgets at target=%v", target, extra, bound, st, reason, msg, len(x.revisions()), x.allAt(target, x.replicas()), x.allAt2(target, n2))
+		c08Outcome = "two-kinds:not-completed"
+		return f
+	}
+	c08Outcome = "two-kinds:completed"
+	return f
+}
+
 func TestVerifC08(t *testing.T) {
 	r := mc.NewReport("C08", "fair-rollouts")
 	defer r.Write()
@@ -302,6 +450,37 @@ func TestVerifC08(t *testing.T) {
 										r.Sample(c)
 									}
 								}
+							}
+						}
+					}
+				}
+			}
+		}
+	}
+	// two rolling child kinds with shared names
+	maxN2 := 2
+	if mc.Thorough() {
+		maxN2 = 3
+	}
+	for _, genSel := range []bool{false, true} {
+		for n := 1; n <= maxN2; n++ {
+			for _, method := range []string{"RollingInPlace", "RollingRecreate"} {
+				bound := 2 * (3*n + 6)
+				for inject := -1; inject <= bound/2; inject++ {
+					for _, ch1 := range []string{"tpl", "tpl+dropextra", "dropextra"} {
+						for _, ch2 := range []string{"tpl", "dropextra", "tpl+dropextra", "addextra", "scaledown"} {
+							if (inject < 0 && ch2 != "tpl") || (ch2 == "scaledown" && n < 2) || (ch2 == "addextra" && ch1 == "tpl") || (strings.Contains(ch2, "dropextra") && ch1 != "tpl") {
+								continue
+							}
+							idx++
+							if !mc.Mine(idx) {
+								continue
+							}
+							c := c08Case2{GenSel: genSel, N: n, Method: method, InjectAt: inject, Change1: ch1, Change2: ch2}
+							r.Case(c, fmt.Sprint(idx), func() []mc.Finding { return c08Run2(c) })
+							r.Outcome(c08Outcome)
+							if idx%53 == 0 {
+								r.Sample(c)
 							}
 						}
 					}
